@@ -92,4 +92,14 @@ PROPS = {
                                       "rayon indexed collect preserves order; worker threads share no hidden state - exercised, not proved"],
         "assumptions": ["the picked encoder of a splittable format is local to groups of split-height rows: BC block rows (4) and dithering-free uncompressed rows (1) - exercised by the byte comparison, not proved"],
     },
+    "C09": {
+        "kernel_sample": 150,
+        "rule": "headers built with every constructor (Header / Dx9Header / Dx10Header new_image / new_cube_map / new_volume) over all 73 formats, all valid DXGI codes x alpha modes x array sizes x 1D/2D/3D, "
+                "26 FourCCs incl. unknown ones, the 19 mask rows and perturbations of them, with builder chains (with_mipmaps, with_mipmap_count, with_cube_map_faces, ...); each written and parsed strict / permissive (+- file length); "
+                "plus one u32 field of the written image replaced by a boundary value (0,1,2^k,2^k-1,2^k+1,MAX), truncations, bad magic, skip_magic, and fully random raw headers; "
+                "observed per case: parse verdict, parsed header, PixelInfo::from_header, Format::from_header, the bytes written back, to_dx9 / to_dx10 results, layout length; "
+                "implementation-only oracle: write -> read is the identity on every constructed header; distinct = distinct case lines",
+        "trusted_base": BASE_TRUST + ["header tables (DXGI codes, FourCCs, mask rows, DX10->DX9 conversion rows) regenerated from /repo every run (gen/GenHeader.v); mask rows are scanned from src/detect.rs and each row re-validated against Format::from_header"],
+        "assumptions": ["known findings F6a / F6b (headers the container cannot represent) are reported as KNOWN-FINDING"],
+    },
 }
